@@ -29,8 +29,10 @@ class Res:
         return "Res(rc=%r sig=%r out=%r err=%r)" % (self.rc, self.sig, self.out[-300:], self.err[-300:])
 
 
-def _limits(cpu, fsize, as_limit):
+def _limits(cpu, fsize, as_limit, nofile=None):
     def f():
+        if nofile is not None:
+            resource.setrlimit(resource.RLIMIT_NOFILE, (nofile, nofile))
         resource.setrlimit(resource.RLIMIT_CPU, (cpu, cpu + 2))
         if as_limit:
             resource.setrlimit(resource.RLIMIT_AS, (as_limit, as_limit))
@@ -40,7 +42,7 @@ def _limits(cpu, fsize, as_limit):
     return f
 
 
-def run(cmd, cwd=None, stdin=None, env=None, cpu=None, fsize=None, as_limit=AS_LIMIT, pass_fds=(), wall=None):
+def run(cmd, cwd=None, stdin=None, env=None, cpu=None, fsize=None, as_limit=AS_LIMIT, pass_fds=(), wall=None, nofile=None):
     """Run cmd (list). stdin: bytes or None. Returns Res. wall: generous wall-clock backstop (10x CPU limit);
     a wall hit is reported as cpu_hit too (inconclusive unless reproduced)."""
     cpu = cpu or CPU_LIMIT
@@ -52,7 +54,7 @@ def run(cmd, cwd=None, stdin=None, env=None, cpu=None, fsize=None, as_limit=AS_L
     try:
         p = subprocess.Popen(cmd, cwd=cwd, stdin=subprocess.PIPE if stdin is not None else subprocess.DEVNULL,
                              stdout=subprocess.PIPE, stderr=subprocess.PIPE, env=e,
-                             preexec_fn=_limits(cpu, fsize, as_limit), pass_fds=pass_fds, close_fds=True)
+                             preexec_fn=_limits(cpu, fsize, as_limit, nofile), pass_fds=pass_fds, close_fds=True)
     except OSError as ex:
         return Res(127, None, b"", str(ex).encode(), False)
     try:
